@@ -1030,9 +1030,11 @@ impl Element {
                                         var_key, var_target, var_target
                                     )?;
                                     p.value_expr(w)?;
-                                    write!(w, ",K||(U?")?;
+                                    // (an expression that is not an object literal has no tree of its own when
+                                    // nothing below it changed: the sub-template then gets an empty tree)
+                                    write!(w, ",K||(U&&(")?;
                                     p.lvalue_state_expr(w, scopes, true)?;
-                                    write!(w, ":Object.create(null))).C(C,T,E,B,F,S,J)")?;
+                                    write!(w, "))||Object.create(null)).C(C,T,E,B,F,S,J)")?;
                                     Ok(())
                                 })
                             }
